@@ -17,7 +17,10 @@ EXPLANATION = (
     "EvalBuiltIn.__call__ -> eval_default); E3 no explicit raise of a non-ProbLog exception class in user-facing functions (registered "
     "builtins, tokenizer/parser, PrologFactory, ClauseDB compile/add) outside a reasoned table; E4 compute_function's handlers cover the "
     "exception classes of the arithmetic implementations it dispatches to and EvalBuiltIn.__call__ catches the class it converts to. "
-    "Implicit exceptions in general (None dereference, KeyError, recursion limits) are not decided."
+    "E5 every builtin argument is type-checked before an attribute of it is read; E6 registry look-ups by a user-supplied name are guarded; E7 every "
+    "constant x.args[k] in ClauseDB / ClauseDBEngine has the arity of x established on all paths; E8 LogicProgram.lineno, which formats the location of "
+    "every error message, uses the character offset only where `offset is None` is excluded for its current binding (locations (file, None) yield None). "
+    "Implicit exceptions in general (None dereference elsewhere, KeyError, recursion limits) are not decided."
 )
 TECHNIQUE = "static analysis: import resolution, exception-flow over resolved call graph, handler-coverage tables"
 
@@ -735,7 +738,39 @@ def rule_e7(repo, col):
     col.floor("E7.constant_argument_indexes", n, 15)
 
 
+def rule_e8(repo, col):
+    """LogicProgram.lineno formats the location of every error message: a location without a character offset ((file, None) or None) must yield None, not a TypeError"""
+    from .. import cfg as cfgmod
+
+    f = repo.func("problog.program", "LogicProgram.lineno")
+    m = f.module
+    pos = f.params[1]
+    g = cfgmod.build(f.node)
+    facts = cfgmod.available_facts(g)
+    n = 0
+    for node in walk_no_nested(f.node):
+        uses = []
+        if isinstance(node, ast.BinOp) and isinstance(node.op, (ast.Add, ast.Sub)):
+            uses = [x for x in (node.left, node.right) if isinstance(x, ast.Name) and x.id == pos]
+        elif isinstance(node, ast.Call) and dotted(node.func).startswith("bisect"):
+            uses = [x for x in node.args if isinstance(x, ast.Name) and x.id == pos]
+        elif isinstance(node, ast.Compare) and any(isinstance(o, (ast.Lt, ast.LtE, ast.Gt, ast.GtE)) for o in node.ops):
+            uses = [x for x in [node.left] + node.comparators if isinstance(x, ast.Name) and x.id == pos]
+        for u in uses:
+            cn = g.node_containing(u)
+            st = facts.get(cn.id) if cn is not None else None
+            if st is None:
+                continue
+            n += 1
+            col.decide("E8", m, node, ("%s is None" % pos, False) in st, "the offset is known not to be None where it is used in %s" % norm(node)[:40],
+                       "lineno uses the character offset in `%s` on a path where `%s is None` has not been excluded for the CURRENT binding of %s (a None test before the tuple is unpacked "
+                       "does not cover (file, None)): formatting the location of an error then raises TypeError instead of the ProbLog error" % (norm(node)[:60], pos, pos),
+                       function="LogicProgram.lineno")
+    col.floor("E8.offset_uses", n, 2)
+
+
 def run(repo, col):
+    col.rule("E8", "the error-location formatter tolerates locations without an offset")
     col.rule("E1", "import resolution")
     col.rule("E2", "containment of internal control exceptions (UnifyError, UnknownClauseInternal)")
     col.rule("E3", "no explicit non-ProbLog raise in user-facing functions (%s)" % USER_FACING_NOTE)
@@ -750,3 +785,4 @@ def run(repo, col):
     rule_e5(repo, col)
     rule_e6(repo, col)
     rule_e7(repo, col)
+    rule_e8(repo, col)
